@@ -2,6 +2,7 @@ package otto
 
 import (
 	"bytes"
+	"math"
 	"regexp"
 	"strconv"
 	"strings"
@@ -85,71 +86,69 @@ func builtinStringConcat(call FunctionCall) Value {
 	return stringValue(value.String())
 }
 
-func lastIndexRune(s, substr string) int {
-	if i := strings.LastIndex(s, substr); i >= 0 {
-		return utf16Length(s[:i])
-	}
-	return -1
-}
-
-func indexRune(s, substr string) int {
-	if i := strings.Index(s, substr); i >= 0 {
-		return utf16Length(s[:i])
-	}
-	return -1
-}
-
 func utf16Length(s string) int {
 	return len(utf16.Encode([]rune(s)))
 }
 
+// utf16Units returns the UTF-16 code units of s: String positions and lengths
+// count code units, not bytes or runes.
+func utf16Units(s string) []uint16 {
+	return utf16.Encode([]rune(s))
+}
+
+// unitsAt reports whether sub occurs in s at code unit index k.
+func unitsAt(s, sub []uint16, k int) bool {
+	if k < 0 || k+len(sub) > len(s) {
+		return false
+	}
+	for i, unit := range sub {
+		if s[k+i] != unit {
+			return false
+		}
+	}
+	return true
+}
+
+// clampPosition returns min(max(pos, 0), length) for an integral or infinite pos.
+func clampPosition(pos float64, length int) int {
+	switch {
+	case pos <= 0:
+		return 0
+	case pos >= float64(length):
+		return length
+	default:
+		return int(pos)
+	}
+}
+
 func builtinStringIndexOf(call FunctionCall) Value {
 	checkObjectCoercible(call.runtime, call.This)
-	value := call.This.string()
-	target := call.Argument(0).string()
-	if 2 > len(call.ArgumentList) {
-		return intValue(indexRune(value, target))
-	}
-	start := toIntegerFloat(call.Argument(1))
-	if 0 > start {
-		start = 0
-	} else if start >= float64(len(value)) {
-		if target == "" {
-			return intValue(len(value))
+	value := utf16Units(call.This.string())
+	target := utf16Units(call.Argument(0).string())
+	start := clampPosition(toIntegerFloat(call.Argument(1)), len(value))
+	for k := start; k+len(target) <= len(value); k++ {
+		if unitsAt(value, target, k) {
+			return intValue(k)
 		}
-		return intValue(-1)
 	}
-	index := indexRune(value[int(start):], target)
-	if index >= 0 {
-		index += int(start)
-	}
-	return intValue(index)
+	return intValue(-1)
 }
 
 func builtinStringLastIndexOf(call FunctionCall) Value {
 	checkObjectCoercible(call.runtime, call.This)
-	value := call.This.string()
-	target := call.Argument(0).string()
-	if 2 > len(call.ArgumentList) || call.ArgumentList[1].IsUndefined() {
-		return intValue(lastIndexRune(value, target))
+	value := utf16Units(call.This.string())
+	target := utf16Units(call.Argument(0).string())
+	start := len(value)
+	if pos := call.Argument(1).float64(); !math.IsNaN(pos) {
+		// A NaN (or missing) position searches from the end.
+		start = clampPosition(pos, len(value))
 	}
-	length := len(value)
-	if length == 0 {
-		return intValue(lastIndexRune(value, target))
+	for k := start; k >= 0; k-- {
+		if unitsAt(value, target, k) {
+			return intValue(k)
+		}
 	}
-	start := call.ArgumentList[1].number()
-	if start.kind == numberInfinity { // FIXME
-		// startNumber is infinity, so start is the end of string (start = length)
-		return intValue(lastIndexRune(value, target))
-	}
-	if 0 > start.int64 {
-		start.int64 = 0
-	}
-	end := int(start.int64) + len(target)
-	if end > length {
-		end = length
-	}
-	return intValue(lastIndexRune(value[:end], target))
+	return intValue(-1)
 }
 
 func builtinStringMatch(call FunctionCall) Value {
